@@ -67,6 +67,8 @@ func ruleC07(c *Ctx) {
 	c.rule("C07-R3", "direct child: the EncryptedAssertion handler returns an error unless element.Parent() == the traversed root")
 	c.rule("C07-R4", "recipient guard: every path to an RSA decrypt in DecryptSymmetricKey has X509Data == \"\" or (base64 decode ok and bytes.Equal(cert.Certificate[0], decoded))")
 	c.rule("C07-R5", "SP certificate validation: with ValidateEncryptionCert on, accepting paths of getDecryptCert carry non-empty cert, ParseCertificate ok and the closed validity window on the SP clock (truth tables)")
+	c.rule("C07-R7", "xmlenc schema table: the fields the decrypting code reads (inline / detached EncryptedKey, its KeyInfo certificate, CipherValue, EncryptionMethod / DigestMethod algorithms) are decoded from the element paths the code assumes, matched by local name without a namespace restriction — a narrowed tag leaves X509Data empty and the recipient check is skipped")
+	checkSchemaTableF(c, "C07-R7", encSchemaTable, true, 11)
 	c.rule("C07-R6", "who-may-call: decrypt routines are called only from decryptAssertions (and each other) with the certificate produced by getDecryptCert")
 
 	// --- R1, R3 on decryptAssertions
